@@ -11,10 +11,13 @@ func init() {
 			"(C04-a) both lists are refined by the one map DisjointPeerIPMap(ips(conns1), ips(conns2)) and diffed in order (value identity); " +
 			"(C04-b/-c) the classification is the four-row table (changed/unchanged/removed/added by presence of the two sides and equalConns), each row sets its own type constant and looks new/lost workloads up in the OTHER report's peers; the first report fills the first side; accessors return their own list and special-case added/removed; " +
 			"(C04-d) the pair key and the IP-merge grouping key are separator-joined (injective) concatenations of (src,dst) and (non-IP end, conn1, conn2); only key attributes are read from a group's representative and sides are re-inserted as they were; " +
-			"(C04-e) row equality is ConnectionSet.Equal on sets rebuilt from both rows. " +
+			"(C04-e) row equality is ConnectionSet.Equal on sets rebuilt from both rows, and Equal compares every map-valued field in both directions (DeepEqual, or equal lengths plus a lookup of every key where a missing key means unequal); " +
+			"(C04-f) in package diff a binding that belongs to one side (first/conn1/ref1/...) is never computed from the other side only. " +
 			"NOT decided: losslessness of refine + merge for every pair of partitions and every address (arithmetic over 2^32 points)."
 		rules.DiffSameRefinement(p, r, "C04-a")
 		rules.DiffClassification(p, r, "C04-b")
 		rules.DiffMergeKey(p, r, "C04-d")
+		rules.SymmetricEquality(p, r, "C04-e")
+		rules.PairRoleConsistency(p, r, "C04-f")
 	})
 }
